@@ -39,6 +39,7 @@ type harnessCfg struct {
 	Tiers    map[string]tierCfg
 	MapOrder bool
 	Repeat   int // native replays per counterexample (schedule / map-order dependent behaviour)
+	Replay   string // "native" (default): go test -overlay of the same harness; "concrete": re-execution of the real code's SSA on the concrete inputs with the same models (harnesses whose models have no native counterpart)
 	Anchors  []string // functions of please that must be executed symbolically
 	Note     string
 }
@@ -191,6 +192,8 @@ type harnessReport struct {
 	Reproduced  []string
 	Discrepancy []string
 	NoSampleReplay bool
+	Concrete    bool
+	Cfg         interp.Config
 }
 
 func cmdCheck(args []string) int {
@@ -269,7 +272,7 @@ func cmdCheck(args []string) int {
 		}
 		cfg.Deadline = time.Now().Add(time.Duration(budget) * time.Second)
 		res := eng.Explore(cfg)
-		rep := &harnessReport{Name: h.Name, Bounds: tc.Bounds, Result: res, NoSampleReplay: h.MapOrder || h.Repeat > 0}
+		rep := &harnessReport{Name: h.Name, Bounds: tc.Bounds, Result: res, NoSampleReplay: h.MapOrder || h.Repeat > 0 || h.Replay == "concrete", Concrete: h.Replay == "concrete", Cfg: cfg}
 		reports = append(reports, rep)
 		fmt.Printf("harness %s: paths=%d completed=%d pruned=%d aborted=%v obligations=%d discharged=%d trivial=%d violations=%d known=%d inconclusive=%d queries=%d solver=%.1fs wall=%.1fs\n",
 			h.Name, res.Paths, res.Completed, res.Pruned, res.Aborted, res.Obligations, res.Discharged, res.TrivialTrue,
@@ -368,14 +371,44 @@ func cmdCheck(args []string) int {
 	var vioLines []string
 	if len(pend) > 0 && !*noReplay {
 		var paths []string
+		results := map[string]replayResult{}
 		for _, p := range pend {
+			if p.rep.Concrete {
+				// concrete re-execution of the real code (same SSA, same models, no solver input)
+				cfg := p.rep.Cfg
+				cfg.ReplayInputs = p.f.Inputs
+				if cfg.ReplayInputs == nil {
+					cfg.ReplayInputs = []interp.ReplayVal{}
+				}
+				cfg.Workers = 1
+				cfg.Trace = false
+				cfg.Deadline = time.Now().Add(120 * time.Second)
+				rr := eng.Explore(cfg)
+				r := replayResult{outcome: "completed"}
+				for _, v := range rr.Violations {
+					r.fails = append(r.fails, v.Label)
+				}
+				for _, v := range rr.Known {
+					r.fails = append(r.fails, v.Label)
+				}
+				if len(rr.EngineErrors) > 0 {
+					r.outcome = "engine-error: " + rr.EngineErrors[0]
+				}
+				results[p.path] = r
+				continue
+			}
 			paths = append(paths, p.path)
 		}
-		out, results, err := nativeReplay(c, paths)
-		if err != nil {
-			fmt.Println("BROKEN: native replay failed:", err)
-			fmt.Println(tail(out, 40))
-			broken = append(broken, "native replay: "+err.Error())
+		if len(paths) > 0 {
+			out, nres, err := nativeReplay(c, paths)
+			if err != nil {
+				fmt.Println("BROKEN: native replay failed:", err)
+				fmt.Println(tail(out, 40))
+				broken = append(broken, "native replay: "+err.Error())
+			}
+			for k, v := range nres {
+				results[k] = v
+			}
 		}
 		for _, p := range pend {
 			r := results[p.path]
@@ -640,13 +673,47 @@ func cmdReplay(args []string) int {
 		return 2
 	}
 	json.Unmarshal(b, &rf)
-	out, results, err := nativeReplay(c, []string{path})
-	if err != nil {
-		fmt.Println(tail(out, 40))
-		fmt.Println("BROKEN:", err)
-		return 2
+	var hc *harnessCfg
+	for i := range c.Harnesses {
+		if c.Harnesses[i].Name == rf.Harness {
+			hc = &c.Harnesses[i]
+		}
 	}
-	r := results[path]
+	var r replayResult
+	if hc != nil && hc.Replay == "concrete" {
+		ov, err := overlayFiles(c, false)
+		if err != nil {
+			fmt.Println("BROKEN:", err)
+			return 2
+		}
+		opts := c.Options
+		applyDefaultOptions(&opts)
+		eng, err := interp.Load(repoDir, c.Package, ov, &opts)
+		if err != nil {
+			fmt.Println("BROKEN:", err)
+			return 2
+		}
+		cfg := interp.Config{Harness: rf.Harness, Bounds: rf.Bounds, MaxSteps: 5000000, Workers: 1, SolverTimeout: 60000, MapOrder: hc.MapOrder, ReplayInputs: rf.Inputs}
+		if cfg.ReplayInputs == nil {
+			cfg.ReplayInputs = []interp.ReplayVal{}
+		}
+		rr := eng.Explore(cfg)
+		r.outcome = "completed (concrete re-execution)"
+		for _, v := range rr.Violations {
+			r.fails = append(r.fails, v.Label)
+		}
+		for _, v := range rr.Known {
+			r.fails = append(r.fails, v.Label)
+		}
+	} else {
+		out, results, err := nativeReplay(c, []string{path})
+		if err != nil {
+			fmt.Println(tail(out, 40))
+			fmt.Println("BROKEN:", err)
+			return 2
+		}
+		r = results[path]
+	}
 	fmt.Printf("replay %s: harness=%s outcome=%s failed-assertions=%v inputs=%s\n", path, rf.Harness, r.outcome, r.fails, inputsString(rf.Inputs))
 	for _, l := range r.fails {
 		if l == rf.Label {
